@@ -5,12 +5,15 @@
    never blocks (its transition function is total: [handle] returns for every input, and returns
    Panic only where the code panics - the engine compares), every waiting step has its timeout
    scheduled when it is entered, heights and rounds never go back, and what was seen (majorities)
-   is never lost.  The temporal composition is not mechanised; the "consensus" engine checks it on
+   is never lost, and a lock is released by a +2/3 prevote for something else in any later round up
+   to the node's own - also one the node has left already (this version prevotes its locked block
+   whatever is proposed, so this rule is what lets a height terminate once the others have moved
+   on).  The temporal composition is not mechanised; the "consensus" engine checks it on
    the real code: after an arbitrary adversarial prefix, a fair suffix (everything delivered,
    reactor-style gossip, timeouts when idle) must bring every honest node past the next height
    (partial, DESIGN.md C12). *)
 From Coq Require Import List NArith ZArith Lia Bool.
-From AnnVerif Require Import Base.Res Base.Bytes Model.VoteSet Model.ValSet Model.Node Proofs.NodeProofs.
+From AnnVerif Require Import Base.Res Base.Bytes Model.VoteSet Model.ValSet Model.Node Proofs.NodeProofs Proofs.Unlock.
 Import ListNotations.
 Open Scope Z_scope.
 
@@ -45,3 +48,54 @@ Theorem c12_monotone :
   height n <= height n' /\ (height n' = height n -> round n <= round n' /\ hv_le (votes n) (votes n')).
 Proof. exact run_monotone. Qed.
 Print Assumptions c12_monotone.
+
+(* (3) the lock-release rule: a prevote that completes +2/3 prevotes for something else than the
+   locked block, in a round after the lock round and not after the node's round (a round the node
+   has left included), leaves the node unlocked, or locked from that round on *)
+Theorem c12_late_polka_releases_lock :
+  forall c v peer n n' o hv code lb b,
+  v_height v = height n -> v_type v = 1%N ->
+  hv_add_vote (votes n) v peer = Ok (hv, true, code) ->
+  lblock n = Some lb -> lround n < v_round v -> v_round v <= round n ->
+  maj23 (hv_prevotes hv (v_round v)) = Some b -> hashes_to (Some lb) (b_hash b) = false ->
+  add_vote_cs c v peer n = Ok (n', o) ->
+  match lblock n' with None => True | Some _ => v_round v <= lround n' end.
+Proof. exact late_polka_releases_lock. Qed.
+Print Assumptions c12_late_polka_releases_lock.
+
+(* non-vacuity: four validators; the node locks a block in round 0, is taken to round 3 by +2/3
+   nil precommits of round 2, and then receives the nil prevotes of round 1 it had missed: the
+   third one meets every premise of (3) and the node ends unlocked *)
+Definition ux_a (k : N) : bytes := [k].
+Definition ux_n0 : res node :=
+  match new_valset [mkVal (ux_a 1) (ux_a 1) 1 0 false; mkVal (ux_a 2) (ux_a 2) 1 0 false;
+                    mkVal (ux_a 3) (ux_a 3) 1 0 false; mkVal (ux_a 4) (ux_a 4) 1 0 false] with
+  | Ok vs => init_node 1 vs None (Some (ux_a 1)) (mkSg 0 0 0 None) | _ => Panic 0 end.
+Definition ux_B : blk := mkBlk [7%N] 1 [8%N] true.
+Definition ux_vote (i : Z) (who : N) (t : N) (r : Z) (b : block_id) : vote :=
+  mkVote (ux_a who) i 1 r t b [who; Z.to_N r; t] true.
+Definition ux_inputs : list input :=
+  [ITimeout 1 0 1; IProposal (mkProp 1 0 (-1) 1 [8%N]) (ux_a 1) []; IPart 1 0 0 ux_B true [];
+   IVote (ux_vote 0 1 1 0 (blk_bid ux_B)) []; IVote (ux_vote 1 2 1 0 (blk_bid ux_B)) (ux_a 2);
+   IVote (ux_vote 2 3 1 0 (blk_bid ux_B)) (ux_a 3);
+   IVote (ux_vote 1 2 2 2 nil_bid) (ux_a 2); IVote (ux_vote 2 3 2 2 nil_bid) (ux_a 3); IVote (ux_vote 3 4 2 2 nil_bid) (ux_a 4);
+   IVote (ux_vote 1 2 1 1 nil_bid) (ux_a 2); IVote (ux_vote 2 3 1 1 nil_bid) (ux_a 3)].
+Definition ux_v : vote := ux_vote 3 4 1 1 nil_bid.
+Example c12_release_nonvacuous :
+  match ux_n0 with
+  | Ok n0 =>
+    match run (mkCfg false) ux_inputs n0 with
+    | Ok n =>
+      (v_height ux_v =? height n) && N.eqb (v_type ux_v) 1 && (round n =? 3) &&
+      (match lblock n with Some lb => bytes_eqb (bk_hash lb) [7%N] | None => false end) &&
+      (lround n <? v_round ux_v) && (v_round ux_v <=? round n) &&
+      (match hv_add_vote (votes n) ux_v (ux_a 4) with
+       | Ok (hv, true, _) => match maj23 (hv_prevotes hv (v_round ux_v)) with
+                             | Some b => negb (hashes_to (lblock n) (b_hash b)) | None => false end
+       | _ => false end) &&
+      (match add_vote_cs (mkCfg false) ux_v (ux_a 4) n with
+       | Ok (n', _) => match lblock n' with None => true | Some _ => false end
+       | _ => false end)
+    | _ => false end
+  | _ => false end = true.
+Proof. vm_compute. reflexivity. Qed.
